@@ -165,7 +165,7 @@ func observe(same bool, a, b *side) string {
 	}
 	spec := equalObs(ga, gb, a.sel, b.sel)
 	wa := a.build(genT, 0)
-	wb := wa
+	wb := a.build(genT, 0) // a fresh budget for the second walk also when both pointers are in one message
 	if !same {
 		wb = b.build(genT, 0)
 	}
